@@ -361,7 +361,9 @@ class SNum:
         return self._cmp(o, "ne")
 
     def __hash__(self):
-        raise Unsupported("hash of symbolic number")
+        # constant hash: dict / set lookups among symbolic keys fall through to __eq__ (a fork on the values);
+        # mixing symbolic and concrete numeric keys in one dict is not modelled
+        return 0
 
     def __bool__(self):
         return cur().branch(self.t != 0)
@@ -389,14 +391,22 @@ class SNum:
         raise Unsupported("symbolic number used as an index")
 
     def __str__(self):
-        return cur().token_for(self)
+        return cur().token_for(self, made_by_code=_caller_is_code())
 
     __repr__ = __str__
 
     def __format__(self, spec):
         if spec == "":
-            return cur().token_for(self)
+            return cur().token_for(self, made_by_code=_caller_is_code())
         raise Unsupported("format spec %r on a symbolic number" % (spec,))
+
+
+def _caller_is_code():
+    """True when str()/format() of a symbolic number is executed by the code under test (not by the harness, whose
+    strings stand for numerals the user wrote in plain decimal notation)"""
+    import sys
+    f = sys._getframe(2)
+    return str(f.f_globals.get("__name__", "")).startswith("cm_colors")
 
 
 def lift(x):
@@ -438,7 +448,12 @@ class SymRGB(tuple):
         return SBool(z3.Not(t))
 
     def __hash__(self):
-        raise Unsupported("hash of symbolic colour")
+        # A constant hash makes dict / set lookups with symbolic colour keys fall through to __eq__, i.e. to a fork
+        # on the equality of the VALUES (both outcomes explored): python's dict semantics, soundly.  Mixing such keys
+        # with concrete tuples (different hash) is not modelled.
+        if all(_isinstance(x, SNum) for x in self):
+            return 0
+        raise Unsupported("hash of a partly symbolic colour")
 
     def __getitem__(self, i):
         r = tuple.__getitem__(self, i)
@@ -687,7 +702,21 @@ class SymMath:
     def fmod(self, x, y):
         if not self._sym(x, y):
             return _math.fmod(x, y)
-        raise Unsupported("math.fmod symbolic")
+        if _isinstance(y, SNum):
+            raise Unsupported("math.fmod with symbolic modulus")
+        # C fmod: x - y * trunc(x / y)  (result has the sign of x)
+        x = lift(x)
+        q = cur().trunc(SymFloat(x) / y)
+        return SymFloat(x) - SymFloat(q) * y
+
+    def remainder(self, x, y):
+        raise Unsupported("math.remainder symbolic")
+
+    def copysign(self, x, y):
+        if not self._sym(x, y):
+            return _math.copysign(x, y)
+        ax = _abs(lift(x))
+        return ite(lift(y) >= 0, ax, -ax)
 
     def _uf1(name):  # noqa
         def f(self, x):
@@ -730,7 +759,22 @@ class TokenAwareNumRe:
     def findall(self, s):
         if "§" not in s:
             return self._orig.findall(s)
-        return self._re.findall(s)
+        found = self._re.findall(s)
+        eng = CUR
+        if eng is not None and "e" not in self._orig.pattern.lower():
+            # The numeral pattern has no exponent syntax.  A symbolic FLOAT that was turned into text by str()/format()
+            # is spelled by repr(): plain decimal only for 0 or 1e-4 <= |x| < 1e16.  Reading such text through this
+            # pattern is only faithful under that condition, which therefore becomes an obligation of the path.
+            for tok in found:
+                key = tok.rstrip("%")
+                v = eng.tokens.get(key)
+                if v is not None and _isinstance(v, SNum) and not v.is_int and key in eng.str_made and key not in eng._plain_checked:
+                    eng._plain_checked.add(key)
+                    av = z3.If(v.t >= 0, v.t, -v.t)
+                    eng.obligations.append(("a float printed by repr() is re-read through a numeral pattern without exponent syntax: "
+                                            "value must print in plain decimal (0 or 1e-4 <= |x| < 1e16)",
+                                            z3.Or(v.t == 0, z3.And(av >= rv(Fraction(1, 10000)), av < rv(10 ** 16))), {}))
+        return found
 
     def __getattr__(self, n):
         return getattr(self._orig, n)
@@ -876,6 +920,8 @@ class Engine:
         self.counter = 0
         self.tokens = {}
         self.tok_index = {}
+        self.str_made = set()       # tokens created by str()/format() of a symbolic number
+        self._plain_checked = set()
         self.obligations = []
         self.notes = []
         self._tabled = set()
@@ -1355,7 +1401,7 @@ class Engine:
         self._tabled.add(k)
 
     # -- numerals inside strings ---------------------------------------------------
-    def token_for(self, x):
+    def token_for(self, x, made_by_code=True):
         i = x.t.get_id()
         tok = self.tok_index.get(i)
         if tok is None:
@@ -1369,6 +1415,14 @@ class Engine:
             tok = "§" + letters + "§"
             self.tokens[tok] = x
             self.tok_index[i] = tok
+        if made_by_code:
+            self.str_made.add(tok)
+        return tok
+
+    def numeral(self, x):
+        """a token for a numeral WRITTEN BY THE USER in plain decimal notation (harness inputs)"""
+        tok = self.token_for(lift(x), made_by_code=False)
+        self.str_made.discard(tok)
         return tok
 
     token_for_obj = token_for
